@@ -1396,7 +1396,7 @@ def run(ctx):
     Hanging.entries = set()
     jobs = corpus_jobs()
     ctx.count('corpus', len(jobs))
-    jobs += gen_jobs(ctx, scale=1.0 if ctx.quick else 8.0)
+    jobs += gen_jobs(ctx, scale=1.0 if ctx.quick else 5.0)
     results = run_and_evaluate(ctx, jobs)
     if not ctx.quick:
         run_checked_build(ctx, jobs, results)
